@@ -1,1 +1,41 @@
-//! witnesses for c20 (filled in below)
+//! C20: `UniqueSortedVec` cannot be built unsorted nor mutated in place from outside its crate.
+
+/// The tuple constructor is private: an unsorted vector cannot be wrapped.
+/// ```compile_fail,E0423
+/// use opening_hours_syntax::sorted_vec::UniqueSortedVec;
+/// let _v: UniqueSortedVec<i32> = UniqueSortedVec(vec![2, 1]);
+/// ```
+/// Twin (differs only in the offending line):
+/// ```no_run
+/// use opening_hours_syntax::sorted_vec::UniqueSortedVec;
+/// let _v: UniqueSortedVec<i32> = UniqueSortedVec::from(vec![2, 1]);
+/// ```
+pub struct ConstructorIsPrivate;
+
+/// No `DerefMut`: `Vec` mutators are not reachable through the wrapper.
+/// ```compile_fail,E0596
+/// use opening_hours_syntax::sorted_vec::UniqueSortedVec;
+/// let mut v: UniqueSortedVec<i32> = vec![1, 2].into();
+/// v.push(0);
+/// ```
+/// Twin:
+/// ```no_run
+/// use opening_hours_syntax::sorted_vec::UniqueSortedVec;
+/// let mut v: UniqueSortedVec<i32> = vec![1, 2].into();
+/// v.len();
+/// ```
+pub struct NoMutableDeref;
+
+/// The inner field is private.
+/// ```compile_fail,E0616
+/// use opening_hours_syntax::sorted_vec::UniqueSortedVec;
+/// let mut v: UniqueSortedVec<i32> = vec![1, 2].into();
+/// v.0.push(0);
+/// ```
+/// Twin:
+/// ```no_run
+/// use opening_hours_syntax::sorted_vec::UniqueSortedVec;
+/// let mut v: UniqueSortedVec<i32> = vec![1, 2].into();
+/// v.as_slice();
+/// ```
+pub struct FieldIsPrivate;
